@@ -273,68 +273,100 @@ def notrace_wrapper(ctx, world):
 
 # --------------------------------------------------------------------------------------------- find_top_boxed_args
 def find_top(ctx, world):
-    ctx.describe("A12.top/find_top", "find_top_boxed_args: the list of top boxes is reset when a strictly greater trace id is seen and appended to on equality; the sentinel is below every id new_trace can yield; the returned node type is that of the top boxes")
-    m, fn = world.repo.find_def(TR, "find_top_boxed_args")
+    ctx.describe("A12.top/find_top", "find_top_boxed_args: the list of top boxes is reset when a strictly greater trace id is seen and appended to on equality; the sentinel is below every id new_trace can yield; the returned node type is that of the top boxes.  Decided on the loop-carried terms of the evaluated function: for each of (boxes, top id, node type) the next-iteration value is classified by the facts isbox(arg), top < arg._trace, arg._trace == top")
+    r, syms, m, fn, sc = eval_function(world, TR, "find_top_boxed_args")
     loc = loc_of(m, fn)
     q = "autograd.tracer.find_top_boxed_args"
-    # locate comparisons on ._trace inside the loop
-    cmps = []
-    for n in ast.walk(fn):
-        if isinstance(n, ast.Compare) and len(n.ops) == 1:
-            cmps.append(n)
-    # identify names: trace var, top_trace var, list var
-    ret = [n for n in ast.walk(fn) if isinstance(n, ast.Return)]
-    if len(ret) != 1 or not isinstance(ret[0].value, ast.Tuple) or len(ret[0].value.elts) != 3:
-        ctx.fail("A12.top", "find_top:return", f"{q}:return", loc, "does not return (top_boxes, top_trace, top_node_type)", "any primitive call")
+    args = syms[fn.args.args[0].arg]
+    r = unseq(r) if r is not None else None
+    if r is None or r.op != "tuple" or len(r.elts) != 3 or not all(e.op == "loop" and e.get("it") is not None for e in r.elts):
+        ctx.fail("A12.top", "find_top:return", f"{q}:return", loc, "does not return (top_boxes, top_trace, top_node_type) accumulated over the arguments", "any primitive call")
         return
-    boxes_v, top_v, type_v = [e.id if isinstance(e, ast.Name) else None for e in ret[0].value.elts]
-    gt = [c for c in cmps if isinstance(c.ops[0], (ast.Gt, ast.GtE, ast.Lt, ast.LtE)) and top_v in [x.id for x in ast.walk(c) if isinstance(x, ast.Name)]]
-    eq = [c for c in cmps if isinstance(c.ops[0], ast.Eq) and top_v in [x.id for x in ast.walk(c) if isinstance(x, ast.Name)]]
-    def strict_greater(c):
-        l, r = c.left, c.comparators[0]
-        if isinstance(c.ops[0], ast.Gt) and isinstance(r, ast.Name) and r.id == top_v:
-            return True
-        if isinstance(c.ops[0], ast.Lt) and isinstance(l, ast.Name) and l.id == top_v:
-            return True
-        return False
-    # the reset branch: an `if` whose test is the strict comparison and whose body assigns a fresh list and top_v
-    reset_ok = False
-    append_ok = False
-    for n in ast.walk(fn):
-        if isinstance(n, ast.If) and isinstance(n.test, ast.Compare):
-            if n.test in gt:
-                assigns = {t.id: st.value for st in n.body if isinstance(st, ast.Assign) for t in st.targets if isinstance(t, ast.Name)}
-                fresh = isinstance(assigns.get(boxes_v), ast.List) and len(assigns[boxes_v].elts) == 1
-                reset_ok = strict_greater(n.test) and fresh and top_v in assigns and type_v in assigns
-            tests = [n.test] + [o.test for o in n.orelse if isinstance(o, ast.If)]
-            for tst, body in [(n.test, n.body)] + [(o.test, o.body) for o in n.orelse if isinstance(o, ast.If)]:
-                if tst in eq:
-                    for st in body:
-                        for c in calls_in(st):
-                            if isinstance(c.func, ast.Attribute) and c.func.attr == "append" and isinstance(c.func.value, ast.Name) and c.func.value.id == boxes_v:
-                                append_ok = True
-    if reset_ok:
+    boxes, top, ntype = r.elts
+    it = boxes.it
+    enum_ok = is_call_to(it, "builtins.enumerate") and len(it.args) == 1 and it.args[0] is args and top.it is it and ntype.it is it
+    is_num = lambda t: t.op == "sub" and t.obj.op == "iterelem" and t.obj.src is it and t.idx.op == "const" and t.idx.value == 0
+    is_arg = lambda t: t.op == "sub" and t.obj.op == "iterelem" and t.obj.src is it and t.idx.op == "const" and t.idx.value == 1
+    is_tr = lambda t: _attr_of(t, "_trace") and is_arg(t.obj)
+    is_top = lambda t: t.op == "loopvar" and t.name == top.name and t.node is top.node
+    self_of = lambda lp: (lambda t: t.op == "loopvar" and t.name == lp.name and t.node is lp.node)
+    a_isbox = lambda a: is_call_to(a, "autograd.tracer.isbox") and len(a.args) == 1 and is_arg(a.args[0])
+    a_gt = lambda a: a.op == "cmp" and a.opname == "Lt" and is_top(a.l) and is_tr(a.r)  # canonical form of trace > top
+    a_ge = lambda a: a.op == "cmp" and a.opname == "Lt" and is_tr(a.l) and is_top(a.r)  # its negation is trace >= top
+    a_eq = lambda a: a.op == "cmp" and a.opname == "Eq" and ((is_tr(a.l) and is_top(a.r)) or (is_top(a.l) and is_tr(a.r)))
+    pair = lambda t: t.op in ("tuple", "list") and len(t.elts) == 2 and is_num(t.elts[0]) and is_arg(t.elts[1])
+
+    def classify(c):
+        """reset / append / keep / odd for one path of an iteration"""
+        if c.pol(a_isbox) is False:
+            return "keep"
+        if c.pol(a_isbox) is not True:
+            return "odd:isbox not tested"
+        if c.pol(a_ge) is not None:
+            return "odd:non-strict comparison"
+        if c.pol(a_gt) is True:
+            return "reset"
+        if c.pol(a_gt) is False and c.pol(a_eq) is True:
+            return "append"
+        if c.pol(a_gt) is False and c.pol(a_eq) is False:
+            return "keep"
+        if c.pol(a_eq) is True and c.pol(a_gt) is None:
+            return "append"
+        if c.pol(a_gt) is False and c.pol(a_eq) is None:
+            return "keep"  # the equality is not consulted on this path: nothing may change
+        return "odd:comparison"
+
+    problems_reset, problems_append = [], []
+    seen = set()
+    for c in cases(boxes.next):
+        k = classify(c)
+        seen.add(k)
+        if k == "reset":
+            ok = c.leaf.op == "list" and len(c.leaf.elts) == 1 and pair(c.leaf.elts[0])
+            if not ok:
+                problems_reset.append(f"on a strictly greater id the list becomes {str(c.leaf)[:60]}")
+        elif k == "append":
+            ok = c.leaf.op == "grow" and c.leaf.how == "append" and self_of(boxes)(c.leaf.obj) and pair(c.leaf.val)
+            if not ok:
+                problems_append.append(f"on an equal id the list becomes {str(c.leaf)[:60]}")
+        elif k == "keep":
+            if not self_of(boxes)(c.leaf):
+                problems_reset.append(f"the list changes on a path where the argument is not a box of the top trace ({str(c.leaf)[:50]})")
+        else:
+            problems_reset.append(k)
+    if "reset" not in seen:
+        problems_reset.append("no path resets the list on a strictly greater trace id")
+    if "append" not in seen:
+        problems_append.append("no path appends on an equal trace id")
+    for lp, want, what in ((top, is_tr, "top_trace"), (ntype, lambda t: is_call_to(t, "builtins.type") and len(t.args) == 1 and _attr_of(t.args[0], "_node") and is_arg(t.args[0].obj), "top_node_type")):
+        for c in cases(lp.next):
+            k = classify(c)
+            if k == "reset":
+                if not want(c.leaf):
+                    problems_reset.append(f"{what} is not updated from the new top box on reset ({str(c.leaf)[:50]})")
+            elif k in ("keep", "append"):
+                if not self_of(lp)(c.leaf):
+                    problems_reset.append(f"{what} changes without a reset ({str(c.leaf)[:50]})")
+            else:
+                problems_reset.append(f"{what}: {k}")
+    if not enum_ok:
+        problems_reset.append("the loop does not enumerate(args)")
+    if not problems_reset:
         ctx.ob("A12.top", "find_top:reset on strictly greater id", True, loc)
     else:
-        ctx.fail("A12.top", "find_top:reset", f"{q}:reset", loc, "the top-box list is not reset exactly when a strictly greater trace id is seen (`trace > top_trace` -> fresh one-element list, top_trace, node type)", "a primitive called with two boxes of the same (innermost) trace: with >= the first one is forgotten and treated as a constant")
-    if append_ok:
+        ctx.fail("A12.top", "find_top:reset", f"{q}:reset", loc, "the top-box list is not reset exactly when a strictly greater trace id is seen (`trace > top_trace` -> fresh one-element list, top_trace, node type): " + "; ".join(sorted(set(problems_reset)))[:200], "a primitive called with two boxes of the same (innermost) trace: with >= the first one is forgotten and treated as a constant")
+    if not problems_append:
         ctx.ob("A12.top", "find_top:append on equal id", True, loc)
     else:
-        ctx.fail("A12.top", "find_top:append", f"{q}:append", loc, "boxes with an id equal to the current top are not appended", "x * x or f(x, y) with both arguments traced at the same level")
+        ctx.fail("A12.top", "find_top:append", f"{q}:append", loc, "boxes with an id equal to the current top are not appended: " + "; ".join(sorted(set(problems_append)))[:200], "x * x or f(x, y) with both arguments traced at the same level")
     # sentinel
-    init = None
-    for st in fn.body:
-        if isinstance(st, ast.Assign) and any(isinstance(t, ast.Name) and t.id == top_v for t in st.targets):
-            try:
-                init = ast.literal_eval(st.value)
-            except Exception:
-                init = None
-            break
+    init = top.init.value if top.init is not None and top.init.op == "const" and isinstance(top.init.value, int) else None
+    empty_ok = boxes.init is not None and ((boxes.init.op == "list" and not boxes.init.elts) or (is_call_to(boxes.init, "builtins.list") and not boxes.init.args))
     first = _first_trace_id(world)
-    if init is not None and first is not None and init < first:
+    if init is not None and first is not None and init < first and empty_ok:
         ctx.ob("A12.bal", f"find_top:sentinel {init} < first id {first}", True, loc)
     else:
-        ctx.fail("A12.bal", "find_top:sentinel", f"{q}:sentinel", loc, f"sentinel {init} is not below the first trace id {first}", "the outermost differentiation: its boxes are not recognised as the top trace")
+        ctx.fail("A12.bal", "find_top:sentinel", f"{q}:sentinel", loc, f"sentinel {init} is not below the first trace id {first} (or the box list does not start empty)", "the outermost differentiation: its boxes are not recognised as the top trace")
 
 
 def _first_trace_id(world):
